@@ -220,6 +220,34 @@ def main(tier):
         ev = file_events(res.trace, parsed)
         if ev:
             named.append(("generated#%d" % len(named), ev, (prog, src, res.p)))
+    # several sources in ONE invocation (dimension added after a seeded change that let the entry address of
+    # `END <addr>` survive into the code files of the following sources): every source's code file must be the one
+    # the same source gives alone - which was just compared with the image and entry the specification predicts
+    pairs = []
+    even = [bi for bi in range(0, len(jobs), 2) if results[bi].p is not None and results[bi].rc == 0]
+    for x, y, z in zip(even, even[1:], even[2:]):
+        pairs.append((x, y, z))
+    pairs = pairs[:60 if tier == "quick" else 1000]
+    with Phase("replay %d invocations with three sources" % len(pairs)):
+        pres = aslrun.assemble_many(bld, [{"sources": {"a.asm": jobs[x][1], "b.asm": jobs[y][1], "c.asm": jobs[z][1]},
+                                           "main": ["a.asm", "b.asm", "c.asm"], "opts": ["-q"], "timeout": 120,
+                                           "want": ["b.p", "c.p"]} for (x, y, z) in pairs])
+    for (x, y, z), res in zip(pairs, pres):
+        rep.evaluated()
+        got = {"a.p": res.p, "b.p": res.files.get("b.p"), "c.p": res.files.get("c.p")}
+        for name, bi in (("a.p", x), ("b.p", y), ("c.p", z)):
+            if got[name] != results[bi].p:
+                alone = codefile.parse(results[bi].p)
+                here = codefile.parse(got[name]) if got[name] else None
+                rep.violation("code file of a source assembled as one of three sources of an invocation differs from the "
+                              "code file the same source gives alone (%s: entries alone %s, here %s; rc=%s)"
+                              % (name, [r.as_dict() for r in alone.records if r.kind == "entry"],
+                                 [r.as_dict() for r in here.records if r.kind == "entry"] if here else None, res.rc),
+                              case=[jobs[x][0], jobs[y][0], jobs[z][0]],
+                              files={"a.asm": jobs[x][1], "b.asm": jobs[y][1], "c.asm": jobs[z][1]},
+                              key={"kind": "invocation"})
+                break
+    rep.traces(len(pairs))
     for (b, src, exp) in jobs[:2]:
         rep.sample({"program": b, "rendered_head": src[:300], "expected_bytes": exp})
     if named:
